@@ -230,7 +230,8 @@ Definition do_project (T : tables) (p : prefix) (ops : assignments) (group : lis
   if negb (parse_ok ops) then Reject else project_parsed T p ops group.
 
 (* ------------------------------------------------------------------ select_rows *)
-(* SelectRowsNode.__init__ (with the unknown-column test of pending fix C26-select-rows-unknown-column) *)
+(* SelectRowsNode.__init__: "referred to unknown columns" (the test added by /repo 2b5c834; before it a parsed term naming an
+   unknown column was accepted and failed only at evaluation -- corpus/C26/select-rows-unknown-column-term.json) *)
 Definition select_rows_node (src : list string) (e : expr) : result :=
   if negb (subset (cols_used e) src) then Reject else finish src.
 Fixpoint do_select_rows (p : prefix) (e : expr) : result :=
@@ -377,18 +378,19 @@ Definition apply_step (T : tables) (p : prefix) (s : step) : result :=
 
 Definition build_step (T : tables) (cols : list string) (s : step) : result := apply_step T (PNode cols) s.
 
-(* which of its own parameters each builder method hands on when it skips a trivial intermediate node
-   (compared with the `return self.sources[0].<method>(...)` calls found in the source text on every run) *)
+(* what each builder method hands on when it skips a trivial intermediate node: positional arguments by position (#i),
+   keyword arguments by keyword, sorted (compared with the `return self.sources[0].<method>(...)` calls found in the
+   source text on every run; the do_* functions above pass exactly these) *)
 Definition forwarded_args : list (string * list string) :=
-  [ ("extend_parsed_", ["parsed_ops=parsed_ops"; "partition_by=partition_by"; "order_by=order_by"; "reverse=reverse"]);
-    ("project_parsed_", ["parsed_ops"; "group_by=group_by"]);
-    ("natural_join", ["b"; "on=on"; "jointype=jointype"; "check_all_common_keys_in_equi_spec=check_all_common_keys_in_equi_spec"]);
-    ("concat_rows", ["b"; "id_column=id_column"; "a_name=a_name"; "b_name=b_name"]);
-    ("select_rows_parsed_", ["parsed_expr=parsed_expr"]);
-    ("select_rows", ["expr"]);
-    ("drop_columns", ["column_deletions"]);
-    ("select_columns", ["columns"]);
-    ("map_columns", ["column_remapping"]);
-    ("rename_columns", ["column_remapping"]);
-    ("order_rows", ["columns"; "reverse=reverse"; "limit=limit"]);
-    ("convert_records", ["record_map"]) ]%string.
+  [ ("extend_parsed_", ["order_by"; "parsed_ops"; "partition_by"; "reverse"]);
+    ("project_parsed_", ["#0"; "group_by"]);
+    ("natural_join", ["#0"; "check_all_common_keys_in_equi_spec"; "jointype"; "on"]);
+    ("concat_rows", ["#0"; "a_name"; "b_name"; "id_column"]);
+    ("select_rows_parsed_", ["parsed_expr"]);
+    ("select_rows", ["#0"]);
+    ("drop_columns", ["#0"]);
+    ("select_columns", ["#0"]);
+    ("map_columns", ["#0"]);
+    ("rename_columns", ["#0"]);
+    ("order_rows", ["#0"; "limit"; "reverse"]);
+    ("convert_records", ["#0"]) ]%string.
